@@ -81,6 +81,7 @@ fn dispatch_inner(ctx: &Ctx, args: &[String]) -> i32 {
         "C19" => c19::run(ctx),
         "C20" => c20::run(ctx),
         "C16-child" => c16::child(ctx, args),
+        "expand-child" => crate::engine::expand_child(args),
         "dump" => common::dump(ctx, args),
         other => {
             eprintln!("unknown property {other}");
